@@ -925,8 +925,8 @@ class randint(Dist):
 
     def ppf(self, rands):
         p = self._pars
-        rvs = rands * (p.high + 1 - p.low) + p.low
-        rvs = rvs.astype(self.dtype)
+        rvs = np.floor(rands * (p.high - p.low) + p.low) # Interval is [low, high), matching the scalar path (rng.integers)
+        rvs = rvs.astype(p.dtype)
         return rvs
 
     def preprocess_timepar(self, key, timepar):
